@@ -68,6 +68,13 @@ def eval_case(s):
         return exp[0], ('evaluate:exc:%s' % got[1], dict(expected=exp))
     if exp[0] == 'unspecified':
         return 'unspecified', None
+    if exp[0] == 'dot':
+        # trailing-dot number: a parse error, or the outcome with the dot dropped; anything else (e.g. skipping the literal) violates
+        if got[0] == 'malformed':
+            return 'malformed', None
+        exp = exp[1]
+        if exp[0] == 'malformed':
+            return 'malformed', ('evaluate:malformed-accepted', dict(got=got))
     if exp[0] == 'malformed':
         if got[0] != 'malformed':
             return 'malformed', ('evaluate:malformed-accepted', dict(got=got))
@@ -149,6 +156,16 @@ def run_shard(shard, ctx, tier):
         s = ''.join(t)
         ctx.states += 1
         for p in range(len(s) + 1):
+            # a call that relies on the default options, made between calls with explicit options, must behave like the
+            # explicit (lookAhead on, whitespace on) call
+            try:
+                r_default = extract(s, p)
+                r_explicit = extract(s, p, {'lookAhead': True, 'whitespace': True})
+            except Exception:
+                r_default = r_explicit = None
+            if r_default != r_explicit:
+                ctx.violation('extract:default-options-differ-from-explicit-defaults', dict(text=s, pos=p, lookAhead=None, whitespace=None),
+                              dict(default_call=r_default, explicit_call=r_explicit))
             for la in (True, False):
                 for ws in (True, False):
                     ctx.tick((s, p))
@@ -169,6 +186,11 @@ def check_case(case):
     if 'expr' in case:
         _, bad = eval_case(case['expr'])
     else:
+        if case['lookAhead'] is None:
+            extract(case['text'], case['pos'], {'lookAhead': False, 'whitespace': False})
+            a = extract(case['text'], case['pos'])
+            b = extract(case['text'], case['pos'], {'lookAhead': True, 'whitespace': True})
+            return [('extract:default-options-differ-from-explicit-defaults', dict(default_call=a, explicit_call=b))] if a != b else []
         _, bad = extract_case(case['text'], case['pos'], case['lookAhead'], case['whitespace'])
     return [bad] if bad else []
 
